@@ -10,7 +10,7 @@ import (
 // MemDB opens a fresh in-memory Badger (small tables so that open+close costs ~1 ms).
 func MemDB() *badger.DB {
 	db, err := badger.Open(badger.DefaultOptions("").WithInMemory(true).WithLogger(nil).
-		WithMaxTableSize(1 << 20).WithNumMemtables(2).WithMaxCacheSize(1 << 20))
+		WithMaxTableSize(1 << 20).WithNumMemtables(2).WithMaxCacheSize(1 << 20).WithCompactL0OnClose(false))
 	if err != nil {
 		panic(fmt.Sprintf("harness: cannot open in-memory badger: %v", err))
 	}
